@@ -17,6 +17,22 @@ CHECKS = {
  "C01": ("dbsim", "fault_enumeration", "deterministic simulation: crash-point enumeration over a journalled in-memory file system, seeded storage programs",
          "Every prefix (plus torn variants and second crashes inside recovery) of the mutating file-system calls of each sampled storage program is recovered by the real FileStorage/WAL code and compared byte-for-byte with the last committed image. Exhaustive over crash points within a program; programs are sampled by seed.",
          "Crash = process death (prefix of issued calls + optional torn call). SimFs is a faithful POSIX file model. Programs are sampled, not enumerated.", "6/C01"),
+ "C02": ("dbsim", "fault_enumeration", "deterministic simulation: crash at every mutating file-system call of seeded query histories; every snapshot reopened by every file-backed constructor in a supervised worker process and read completely",
+         "For each sampled history the disk image after every prefix of its mutating FS calls (plus torn variants) is opened with the real constructors under catch_unwind and an allocation cap; open and every read query must succeed. Exhaustive over crash points within a history (quick: evenly sampled cap per history), histories sampled by seed.",
+         "Crash = process death; database creation excluded. A worker that aborts or hangs inside a trial is attributed to that trial and reported as a violation.", "6/C02"),
+ "C03": ("dbsim", "fault_enumeration", "deterministic simulation: crash at every mutating file-system call of seeded query histories and multi-query transactions; reopened state compared with the live pre/post dumps",
+         "Same executions as C02; the complete dump of the reopened database must equal the dump taken from the live database immediately before or immediately after the interrupted query/transaction (order-sensitive), so every earlier step is preserved and no partial effect is visible.",
+         "Expected states are dumps of the live database through the same read queries (no model). Crash = process death; creation excluded.", "6/C03"),
+ "C13": ("dbsim", "exploration", "deterministic simulation: seeded abort injection (closure error after query k, logical failure after partial work) with before/after comparison of the complete observable state",
+         "Seeded histories on all six variants; for every failed step the complete dump before and after must be equal up to the order of an element's properties.",
+         "Abort by injected I/O error is decided by C32. Order-insensitive only where the statement allows it.", "6/C13"),
+ "C19": ("dbsim", "exploration", "deterministic simulation: bounded liveness in simulated storage steps over seeded churn histories",
+         "Every query of long insert/remove/re-insert histories over hashed keys runs under a budget of 2,000,000 storage calls counted by a StorageData wrapper; exceeding it is a violation naming the query. Budget is in simulated steps, never wall-clock.",
+         "A query needing more than the budget is treated as non-terminating (measured legitimate maximum is ~1000x lower and reported).", "6/C19"),
+ "C32": ("dbsim", "fault_enumeration", "deterministic simulation: one injected ENOSPC/EIO at every mutating file-system call of a target query, then further queries, close and reopen",
+         "For each sampled history the target query is re-executed once per mutating FS call with that call failing; the query must report an error and leave no effect, later queries must behave per the model, and close+reopen must show every later successful mutation. Exhaustive over fault positions within the target (quick: even sample of 6), histories sampled.",
+         "One failure per execution; failing call has no effect on the disk; reads never fail.", "6/C32"),
+
  "C04": ("dbsim", "exploration", "deterministic simulation: seeded storage histories with clean restarts, I/O noise and forced contended reads, checked operation by operation against a byte-level reference model",
          "Seeded search over storage-operation histories on all three back-ends; after every operation every live value is read back and compared with the model, removed values must be unreadable, and after defragmentation / restart the file must hold no unused space.",
          "Valid requests only; fault-free configuration (the crash configuration is C01). The model is 60 lines and mirrors the documented semantics of insert-at/move/resize.", "6/C04"),
